@@ -359,6 +359,15 @@ func (e *Env) sel(t ESel) Val {
 		if !ok {
 			unsup("spec: .%s on pointer to non-struct", t.F)
 		}
+		if strings.HasPrefix(t.F, "$") {
+			gf := vc.prog.ghostField(pt.Elem(), t.F)
+			if gf == nil {
+				unsup("spec: no ghostfield %s declared for %s", t.F, name)
+			}
+			srt := e.sortOfTypeString(gf.Sort)
+			c := vc.comp(e.st, fieldComp(name, t.F), "(Array Int "+srt+")")
+			return Val{T: fmt.Sprintf("(select %s %s)", c, xv.T), Sort: srt}
+		}
 		i := fieldIndex(sty, t.F)
 		if i < 0 {
 			unsup("spec: struct %s has no field %s", name, t.F)
@@ -661,6 +670,25 @@ func (e *Env) callSpec(t ECall) Val {
 	case "fresh": // reference allocated during the call
 		v := e.eval(t.Args[0])
 		return mathBool(fmt.Sprintf("(>= %s %s)", refTerm(v), e.old.alloc))
+	case "store": // store(array, index, value) on SMT arrays
+		a, i, v := e.eval(t.Args[0]), e.eval(t.Args[1]), e.eval(t.Args[2])
+		return Val{T: fmt.Sprintf("(store %s %s %s)", a.T, i.T, v.T), Sort: a.sort(vc)}
+	case "call", "call1", "call2": // result of a pure callback applied to arguments
+		fv := e.eval(t.Args[0])
+		sig, ok := types.Unalias(fv.Typ).Underlying().(*types.Signature)
+		if !ok {
+			unsup("spec: call(f, ...) needs a function value")
+		}
+		idx := 0
+		if t.Fn != "call" {
+			idx = int(t.Fn[4] - '0')
+		}
+		var args []string
+		for _, a := range t.Args[1:] {
+			args = append(args, e.eval(a).T)
+		}
+		rt := sig.Results().At(idx).Type()
+		return Val{T: vc.pureApply(sig, idx, fv.T, args), Typ: rt}
 	case "str": // str(byteslice): the string with that content
 		v := e.eval(t.Args[0])
 		if e.frame == nil {
